@@ -3,7 +3,7 @@ package main
 func init() { register("C19", checkC19) }
 
 func checkC19(r *Run) {
-	r.Explain = "Decides the whole skip arithmetic as a counting argument over the call graph (A25): for every call chain inside the module from an exported entry a user statement can call down to the function that calls runtime.Caller (static calls plus the VTA-resolved hook.Run dispatch), the skip operand is evaluated symbolically along the chain as a linear expression over constants, CallerSkipFrameCount (or the per-hook replacement field), user skip parameters and Event.skipFrame (+ the CallerSkipFrame(c) constants applied inside the chain); obligation per chain and phi variant: constant part + documented base = number of module frames, and every user-controlled term has coefficient 1 ('moves the site exactly k frames'). Event.skipFrame is written only by the pool reset and by `+= k`. HOOKS (shared with C03): Logger.Hook builds a fresh slice — the caller hook is installed through it. CALLERFMT: the default console formatter shows the caller as the event's own text or as filepath.Rel(cwd, text) — no other cut of the path (a string-prefix trim splits a path element and names a file that is not the call site's). A25 pins-its-argument: Context.CallerWithSkipFrameCount registers newCallerHook(its argument) on every path."
+	r.Explain = "Decides the whole skip arithmetic as a counting argument over the call graph (A25): for every call chain inside the module from an exported entry a user statement can call down to the function that calls runtime.Caller (static calls plus the VTA-resolved hook.Run dispatch), the skip operand is evaluated symbolically along the chain as a linear expression over constants, CallerSkipFrameCount (or the per-hook replacement field), user skip parameters and Event.skipFrame (+ the CallerSkipFrame(c) constants applied inside the chain); obligation per chain and phi variant: constant part + documented base = number of module frames, and every user-controlled term has coefficient 1 ('moves the site exactly k frames'). Event.skipFrame is written only by the pool reset and by `+= k`. HOOKS (shared with C03): Logger.Hook builds a fresh slice — the caller hook is installed through it. CALLERFMT: the default console formatter shows the caller as the event's own text or as filepath.Rel(cwd, text) — no other cut of the path (a string-prefix trim splits a path element and names a file that is not the call site's). A25 pins-its-argument: Context.CallerWithSkipFrameCount registers newCallerHook(its argument) on every path. A12 reset (C05's rule): a recycled Event starts with skipFrame 0 and no hooks on every path out of newEvent."
 	r.NotDec = "Effects of the user reassigning CallerSkipFrameCount or CallerMarshalFunc (documented knobs). Inlining is irrelevant: runtime.Caller reports logical frames."
 	r.Assume = []string{"VTA call graph over-approximates interface dispatch inside the module", "user wrappers outside the module use CallerSkipFrame themselves"}
 	r.Trusted = []string{"x/tools callgraph/vta"}
